@@ -475,10 +475,10 @@ func (r *runner) tree(idx int64, shape *node) {
 			c.Feature("sym: alternative parses giving a different term/outcome", int64(best.dist))
 		} else {
 			type cand struct {
-				vals        []mval
-				score       float64
-				alts, dist  int
-				o           outcome
+				vals       []mval
+				score      float64
+				alts, dist int
+				o          outcome
 			}
 			var best *cand
 			tries := 6
